@@ -133,9 +133,11 @@ _W = None
 
 
 def world():
+    """The world of this process (a forked worker never reuses its parent's directories)."""
     global _W
-    if _W is None:
+    if _W is None or _W.pid != os.getpid():
         _W = World()
+        _W.pid = os.getpid()
     return _W
 
 
@@ -291,18 +293,23 @@ def well_formed(exp, disk_unversioned, basis, work):
     return True
 
 
-def resolve_text(e, variant):
-    """Replace a ('hunks', flags) content marker by the bytes expected from the region construction."""
+def resolve_text(fid, e, variant, basis, work):
+    """Replace a ('hunks', flags) content marker by the bytes expected: for the 25-line file from the
+    region construction, for the small files (one hunk) the basis or the working bytes."""
     if isinstance(e[3], tuple) and e[3] and e[3][0] == "hunks":
         flags = e[3][1]
         edited = [r for r in range(3) if variant[r] != "-"]
-        if len(flags) != len(edited):
-            raise HarnessError("hunks offered %d, regions edited %d" % (len(flags), len(edited)))
-        applied = [True, True, True]
-        for r, shelved in zip(edited, flags):
-            if shelved:
-                applied[r] = False
-        return (e[0], e[1], e[2], text_for(variant, applied), e[4])
+        if fid == b"a-id" and edited:
+            if len(flags) != len(edited):
+                raise HarnessError("hunks offered %d, regions edited %d" % (len(flags), len(edited)))
+            applied = [True, True, True]
+            for r, shelved in zip(edited, flags):
+                if shelved:
+                    applied[r] = False
+            return (e[0], e[1], e[2], text_for(variant, applied), e[4])
+        if len(flags) != 1:
+            raise HarnessError("%d hunks offered for a one-hunk file %r" % (len(flags), fid))
+        return (e[0], e[1], e[2], basis[fid][3] if flags[0] else work[fid][3], e[4])
     return e
 
 
@@ -350,7 +357,7 @@ def check_case(acc, w, st, ops, prompts0, answers):
     variant = variant_of(ops)
     exp, alt, nsel = expected_after_shelve(st["basis"], st["work"], prompts0, answers, st["disk"])
     try:
-        exp = {f: resolve_text(e, variant) for f, e in exp.items()}
+        exp = {f: resolve_text(f, e, variant, st["basis"], st["work"]) for f, e in exp.items()}
     except HarnessError:
         raise
     valid = well_formed(exp, st["unversioned"], st["basis"], st["work"])
